@@ -22,6 +22,8 @@ structure St where
   bscSet  : Bool := false
   decoded : Bool := false
   root    : Option Node := none -- bsc.GetRoot()
+  pStatus : Option Nat := none     -- state status of the previous block (none: no previous block)
+  pState  : Option BState := none  -- its in-memory client state, if it has one
 
 def parseNode (ws : List String) : Option Node :=
   match ws with
@@ -40,7 +42,7 @@ def showErr : ErrClass → String
 
 def doApply (s : St) (b : Blk) (root : Option Node) : St × String :=
   let cs : ChangeSet := { block := s.csBlock, root := s.csRoot, nodes := s.nodes }
-  let (r, bs, st) := apply b cs root
+  let (r, bs, st) := apply b cs root (baseOverlay s.pStatus s.pState)
   let s' := { s with blk := some { b with status := st }, bstate := (match bs with | some x => some x | none => s.bstate) }
   match r with
   | .applied => (s', "applied")
@@ -60,11 +62,22 @@ def step (s : St) (ws : List String) : St × String :=
     match cnt.toNat?, st.toNat?, rd.toNat? with
     | some c, some stv, some r =>
       if stv > 5 || !(isHex sh) || (pc != "0" && pc != "1") || r < 1 || r > 1099511627776
-         || (prev != "-" && !(isHex prev)) then (s, "bad-op")
+         || (prev != "-" && prev != "@" && !(isHex prev)) then (s, "bad-op")
+      else if prev = "@" then
+        -- the previous block is the block handled just before, as it stands
+        match s.blk with
+        | none => (s, "bad-op")
+        | some pb =>
+          let b : Blk := { hash := h, stateHash := sh, count := c, prev := some pb.stateHash,
+                           prevComputed := pb.status ≥ 4, status := stv, round := r }
+          ({ s with blk := some b, bstate := none, bscSet := false, decoded := false, nodes := [], root := none,
+                    pStatus := some pb.status, pState := s.bstate }, "ok")
       else
         let b : Blk := { hash := h, stateHash := sh, count := c, prev := if prev = "-" then none else some prev,
                          prevComputed := pc = "1", status := stv, round := r }
-        ({ s with blk := some b, bstate := none, bscSet := false, decoded := false, nodes := [], root := none }, "ok")
+        -- a fresh previous block whose state is a trie directly over the node DB (no in-memory nodes)
+        ({ s with blk := some b, bstate := none, bscSet := false, decoded := false, nodes := [], root := none,
+                  pStatus := if prev = "-" then none else some (if pc = "1" then 4 else 0), pState := none }, "ok")
     | _, _, _ => (s, "bad-op")
   | "cs" :: blkh :: root :: rest =>
     if s.blk.isNone || !(rest = [] || rest = ["honest"]) || !(isHex root) then (s, "bad-op")
